@@ -27,6 +27,7 @@ import (
 	"github.com/styrainc/regal/pkg/config"
 	"github.com/styrainc/regal/pkg/linter"
 	"github.com/styrainc/regal/pkg/report"
+	"github.com/styrainc/regal/pkg/rules"
 )
 
 func TestVerifC07(t *testing.T) {
@@ -190,6 +191,10 @@ type shiftResult struct {
 	ByCode      map[string]int         `json:"by_code"`
 	Aggregate   []string               `json:"aggregate_rules"`
 	Issues      []shiftIssue           `json:"issues"`
+	// round 3 (input modes): the diagnostics the server holds after loading the workspace against one linter.Lint call over
+	// the same texts handed over as a map of file contents (rules.InputFromMap), converted with convertReportToDiagnostics
+	ModeIssues   []shiftIssue `json:"mode_issues,omitempty"`
+	ModeCompared int          `json:"mode_compared"`
 }
 
 const shiftRoot = "file:///ws"
@@ -314,6 +319,53 @@ func shiftLoad(ctx context.Context, files map[string]string, cfgYAML string) (*s
 		return nil, "", err
 	}
 	return s, "", nil
+}
+
+// shiftAPIMode: the same workspace through the public API in one call (texts -> rules.InputFromMap -> Lint with the server's
+// path prefix and configuration): per file the same diagnostics as the server holds after loading the workspace. With
+// the k-shift relation of both sides this ties the server's diagnostics for every k to the reports of the other input modes.
+func shiftAPIMode(ctx context.Context, s *shiftSession, files map[string]string, cfg string, base map[string][]shiftDiag) (res []shiftIssue, n int) {
+	texts := map[string]string{}
+	for name, t := range files {
+		texts[shiftRoot+"/"+name] = t
+	}
+	in, err := rules.InputFromMap(texts, nil)
+	if err != nil {
+		return []shiftIssue{{Kind: "api-mode-mismatch", Err: "rules.InputFromMap: " + err.Error(), Files: files, Config: cfg}}, 0
+	}
+	l := linter.NewLinter().WithPathPrefix(shiftRoot).WithInputModules(&in)
+	if s.cfg != nil {
+		l = l.WithUserConfig(*s.cfg)
+	}
+	rpt, err := l.Lint(ctx)
+	if err != nil {
+		return []shiftIssue{{Kind: "api-mode-mismatch", Err: "Lint: " + err.Error(), Files: files, Config: cfg}}, 0
+	}
+	c2 := cache.NewCache()
+	for uri, ds := range convertReportToDiagnostics(&rpt, shiftRoot) {
+		c2.SetFileDiagnostics(uri, ds)
+	}
+	var names []string
+	for name := range files {
+		names = append(names, name)
+	}
+	// per file only: a violation without a file (no-defined-entrypoint) carries no location, and updateAllDiagnostics stores
+	// nothing under the workspace root
+	sort.Strings(names)
+	for _, name := range names {
+		uri := shiftRoot + "/" + name
+		api := shiftSnapshot(c2, uri)
+		n += len(api)
+		for _, d := range shiftMinus(base[name], api) {
+			d := d
+			res = append(res, shiftIssue{Kind: "api-mode-mismatch", File: name, Diag: &d, Other: "only the server reports it", Before: base[name], After: api, Files: files, Config: cfg})
+		}
+		for _, d := range shiftMinus(api, base[name]) {
+			d := d
+			res = append(res, shiftIssue{Kind: "api-mode-mismatch", File: name, Diag: &d, Other: "only the one-call API lint reports it", Before: base[name], After: api, Files: files, Config: cfg})
+		}
+	}
+	return res, n
 }
 
 // shiftEdit: what the server does for one textDocument/didChange of `name`
@@ -537,6 +589,7 @@ func shiftRunWS(ctx context.Context, ws shiftWS) shiftResult {
 		}
 	}
 	res.Baseline[""] = shiftSnapshot(s.c, shiftRoot)
+	res.ModeIssues, res.ModeCompared = shiftAPIMode(ctx, s, ws.Files, ws.Config, res.Baseline)
 	program := ws.Program
 	if len(program) == 0 {
 		edit := ws.Edit
